@@ -43,6 +43,10 @@ CLAIMED["C05"] = ("Bounded symbolic differential model checking of chunking inde
  "Trusted: gosx, paint stubs, terminal stub; timing finer than read boundaries is not modelled (keyseq-timeout is not implemented by the library).",
  "symbolic execution of the real SSA (two Readline runs per path) + SMT (z3) equivalence assertions", "DESIGN.md §5 C05")
 
+CLAIMED["C18"] = ("Bounded symbolic model checking of macro record/replay at the macro engine: k symbolic ASCII key bytes are recorded through the same calls the main loop makes per resolved key, stored in inputrc notation and replayed in the emacs style (RunLastMacro) and the vi style (RunMacro of a named register); the keys popped from the key stack must equal the keys typed, decided by z3 for all key values.",
+ "Trusted: gosx. Unit level: the key stack is observed with core.PopKey; whole Readline sessions (C-x ( ... C-x ) C-x e) are not driven by this check.",
+ "symbolic execution of the real SSA + SMT (z3) equality of replayed and recorded keys", "DESIGN.md §5 C18")
+
 PENDING = {}
 
 NA = {
